@@ -598,7 +598,12 @@ func (hs *clientHandshakeStateTLS13) establishHandshakeKeys() error {
 		}
 		ecdhePeerData = hs.serverHello.serverShare.data[:x25519PublicKeySize]
 	}
-	sharedKey, err := getSharedKey(ecdhePeerData, hs.keyShareKeys.ecdhe)
+	ecdheKey := hs.keyShareKeys.ecdhe
+	if extraKey, ok := hs.keyShareKeys.ecdheExtra[hs.serverHello.serverShare.group]; ok {
+		// the server selected one of the additional classical shares of the spec
+		ecdheKey = extraKey
+	}
+	sharedKey, err := getSharedKey(ecdhePeerData, ecdheKey)
 	// [uTLS] SECTION END
 	if err != nil {
 		c.sendAlert(alertIllegalParameter)
